@@ -114,7 +114,7 @@ def corpus_chars():
     return out
 
 
-TOKENS = [b"nil", b"nil:", b"nilx", b"t", b"tt", b"t:", b":a", b"a:", b":a:", b"::", b":", b"a", b"abc", b"#:a", b"#:", b"#:a:", b"#%a", b"#%", b"#%a:",
+TOKENS = [b".", b"..", b"nil", b"nil:", b"nilx", b"t", b"tt", b"t:", b":a", b"a:", b":a:", b"::", b":", b"a", b"abc", b"#:a", b"#:", b"#:a:", b"#%a", b"#%", b"#%a:",
           b"?a", b"?\\(", b"1+", b"1-", b"1/2", b"1.5.6", b"0x10", b"12ab", b"1e3", b"12", b"-12", b"+5", b"-", b"+", b"-a", b"+a", b"-:", b"+nil",
           b"...", b".a", b".a:", b".nil", b"a.b", b"-1x", b"1.", b"1.e", b".5", b"-.5", b"1e", b"1e-7", b"1e+", b"#t", b"#f", b"#nil", b"#true", b"#nilx",
           b"#x10", b"#b101", b"#b102", b"#d1.5", b"#e1", b"#xg", b"#x-a", b"#x+A", b"#o8", b"\xce\xbb", b"\xce\xbb:", b"\xe2\x82\xac", b"a\"b", b"a|b", b"a#b",
@@ -156,9 +156,11 @@ def corpus_lists():
              b"(\"a\\n\" .x)", b"(#\\space .x)", b"(1.5 .x)", b"(-y .x)", b"(\"\\x41;\" .x: .y)", b"(1 2.)", b"(- . +)", b"(+ -)", b"#(+ -)", b"[+ -]", b"[a . b]", b"(a . [b])", b"[- ]", b"(... . ...)", b"(.. . a)", b"(a . . b)",
              b'("a\\nb" :k "c\\td" :j)', b"(-y :k)", b"(.x :k)", b"(\xce\xbb :k)", b"(-1.5 :k)", b'("a\\nb" #:k)', b'("a\\nb" k:)', b'("q\\x41;" :k . :j)',
              b'#("a\\nb" :k)', b"(+x :k -y :j)",
+             b"(#%a #%b)", b"(- #%a)", b'("a\\nb" #%a)', b"(#%a: #%b:)", b"(\xce\xbb #%a)", b"#(.)", b"#(. foo)", b"#(1 . 2)", b"'. ", b"(a '.)", b". x", b".\n",
+             b"(a . #nil)", b"[a b . nil]", b"(nil . nil)", b"(a #nil)", b"(#nil)",
              b'(a ."s")', b"(a .(b))", b"(a .[b])", b"(a .;c\n b)", b"(a .|)", b"(a .#t)", b'(a."s")', b"(a .'b)",
              b"(a\tb c)", b"a\tb", b"(1\t2)", b"(a\rb)", b"(a\nb)", b"(:k\tv)", b"(x:\ty)", b"#(a\tb)"]
-    osets = [DEFAULT, ELISP, P(k=7, nil=0, t=0, br=1), P(k=0, nil=2, t=0, br=0, dg=1), P(k=2, nil=2, br=1, ss=1, cs=1)]
+    osets = [DEFAULT, ELISP, P(k=7, nil=0, t=0, br=1), P(k=0, nil=2, t=0, br=0, dg=1), P(k=2, nil=2, br=1, ss=1, cs=1), P(k=2, nil=1, t=1, rk=1)]
     for t in texts:
         for o in osets:
             out.append((t, o))
@@ -181,6 +183,8 @@ def corpus_numbers():
              b"#d-12.5e-1", b"#d1e2", b"#x1e2", b"#xe", b"#xE1", b"#b1e1", b"1e0", b"1e00000000000000000000001", b"1e99999999999999999999", b"0e99999999999999999999",
              b"1e-99999999999999999999", b"0.0", b"-0.0", b"5e-324", b"2e-324", b"1.7976931348623157e308", b"1.7976931348623159e308",
              b"#x1" + b"0" * 256, b"#x" + b"f" * 300, b"#b1" + b"0" * 1024, b"#o1" + b"0" * 342, b"#x1" + b"0" * 255, b"#x-1" + b"0" * 260, b"#b" + b"1" * 1100,
+             b"#xFFFFFFFFFFFFFFFFFFFF", b"#x10000000000000000F", b"#x-123456789abcdef0123aBcD", b"#XABCDEFABCDEFABCDEFAB", b"#xffffffffffffffffffff",
+             b"0e309", b"0e400", b"0.0e999", b"-0e1000", b"0.000E+4000", b"0e308", b"0e-400", b"0.0e22",
              b"-1e3", b"-5e22", b"-2e-7", b"+1e3", b"-1e16", b"-1E2", b"-12e1", b"-0e5", b"-1e400", b"-3e-400", b"-18446744073709551616e2", b"-1.5e3",
              b"100000000000000000000e2147483647", b"0.01e-2147483647", b"1.5e2147483646", b"0.001e2147483647", b"123456789012345678901e-2147483648",
              b"1e2147483647", b"0.1e-2147483647", b"1e-2147483648", b"1e2147483648", b"0.00e2147483647", b"12345678901234567890123e-2147483647",
@@ -464,6 +468,39 @@ def check_iteration(fast=True):
     return n, bad
 
 
+HISTORY_TEXTS = [b"#\\x\xc3\xa9a b", b"#\\\xc3\xa9x (\xce\xbb) c", b"\"\\q\xc3\xa9\" \xc3\xa9", b") \xce\xbb", b"#\\space\xc3\xa9 z", b"#t\xce\xbb a", b"1\xc3\xa9 b",
+                 b"#\\x41\xe2\x82\xac c", b"(#\\x\xc3\xa9a) b", b"#nix\xc3\xa9 a", b"a ) b ] c", b"#\\x110000 a", b"\"\\x110000;\" \xce\xbb"]
+
+
+def check_histories(fast=True):
+    """C06 / C17 on call histories (no reference involved): the same parser asked again and again after errors gives the same sequence
+    of values / errors from a str, a byte slice and a stream over the same valid UTF-8 text, and everything returned is well-formed"""
+    n, bad = 0, []
+    cases = [(t, DEFAULT) for t in HISTORY_TEXTS] + [(t, ELISP) for t in HISTORY_TEXTS[:6]]
+    for api in ("valuec", "datumc"):
+        res_by_src = {}
+        for src in ("str", "slice", "reader"):
+            sub = [(d, o.s()) for d, o in cases]
+            res_by_src[src] = RP.parse_batch(sub, src, api, fast)
+            n += len(sub)
+        for i, (d, o) in enumerate(cases):
+            a = res_by_src["str"][i]
+            for src in ("slice", "reader"):
+                b = res_by_src[src][i]
+                why = None
+                if "!" in (a.get("trace", "") + b.get("trace", "")):
+                    why = "a returned value holds text that is not well-formed UTF-8"
+                elif "crash" in a or "crash" in b:
+                    why = "crash"
+                elif a.get("trace") != b.get("trace"):
+                    why = "the call history differs between the str and the %s source: %s vs %s" % (src, a.get("trace"), b.get("trace"))
+                if why:
+                    bad.append({"input_hex": d.hex(), "input": d.decode("latin-1"), "opts": o.s(), "src": "str" if "!" in a.get("trace", "") else src, "api": api, "fast": fast,
+                                "expected": _short(a), "observed": _short(b), "why": why})
+                    return n, bad
+    return n, bad
+
+
 def run_domain(name, fast=True):
     """cached per process: -> (cases, discrepancies)"""
     key = (name, fast)
@@ -472,12 +509,15 @@ def run_domain(name, fast=True):
             _CACHE[key] = check_print(fast)
         elif name == "spans":
             _CACHE[key] = check_spans(fast)
+        elif name == "histories":
+            _CACHE[key] = check_histories(fast)
         elif name == "iteration":
             _CACHE[key] = check_iteration(fast)
         elif name == "locations":
             _CACHE[key] = check_locations(fast)
-        elif name in ("serde", "printcheck", "alist", "conswalk", "numconv"):
-            cmd = {"serde": "serdecheck", "printcheck": "printcheck", "alist": "alistcheck", "conswalk": "conscheck", "numconv": "numcheck"}[name]
+        elif name in ("serde", "printcheck", "alist", "conswalk", "numconv", "entrypoints"):
+            cmd = {"serde": "serdecheck", "printcheck": "printcheck", "alist": "alistcheck", "conswalk": "conscheck", "numconv": "numcheck",
+                   "entrypoints": "entrycheck"}[name]
             r = RP.run_cmd([cmd], fast=True, timeout=600)
             _CACHE[key] = (r.get("cases", 0), [{"kind": "corpus", "cmd": cmd, "what": b} for b in r.get("bad", [])])
         elif name == "value_vs_datum":
